@@ -48,6 +48,7 @@ func usesBodies(T string) [][]*ir.S {
 	leafD := ir.Leaf("gd", T)
 	leafD.Default = "3"
 	ll := &ir.S{Kind: "leaf-list", Name: "gll", Type: T, Min: "1", Max: "4"}
+	ll3 := &ir.S{Kind: "leaf-list", Name: "gl3", Type: T, Default: "1,2,3"} // three defaults: a slice with spare capacity
 	li := &ir.S{Kind: "list", Name: "gli", Min: "2", Max: "7", Kids: []*ir.S{ir.Leaf("v", T)}}
 	return [][]*ir.S{
 		{ir.Leaf("gl", T)},
@@ -60,6 +61,7 @@ func usesBodies(T string) [][]*ir.S {
 		{ir.Typedef("lt", "int64"), ir.Leaf("ltl", "lt")},
 		{leafD, ir.N("anydata", "gad")},
 		{ir.Cont("gn", ir.Uses("g2"), ir.Leaf("own", T))},
+		{ll3, ir.Leaf("after", T)},
 	}
 }
 
